@@ -206,9 +206,121 @@ Definition builtin_call (pos : tpos) (callee : string) (args : list expr) (sig :
     end
   else (fs_ret sig, avail).
 
-(* object property lookup shared by checkObjectDeref and checkIndexAccess (string literal index) *)
+(* ---- one function per node kind: result type and the node's own diagnostics,
+   given the result types of the children --------------------------------------- *)
+
+(* checkVariable (+ checkAvailableContext) *)
+Definition var_node (p : tpos) (name : string) : ty * list diag :=
+  match lookup name (e_vars E) with
+  | None => (TAny, [mkdiag p DUndefVar])
+  | Some t => (t, if mem (lower name) (e_avail E) then [] else [mkdiag p DCtxNotAllowed])
+  end.
+
+(* checkObjectDeref; [t] = type of the receiver *)
+Definition deref_node (recv : expr) (prop : string) (t : ty) : ty * list diag :=
+  let pos := etok recv in
+  match t with
+  | TAny => (TAny, [])
+  | TObj ps m =>
+      match lookup prop ps with
+      | Some pt => (pt, [])
+      | None =>
+          match m with
+          | Some mt =>
+              (mt, match recv with
+                   | EVar _ "vars" =>
+                       match check_config (e_config E) prop with
+                       | Some k => [mkdiag pos k]
+                       | None => []
+                       end
+                   | _ => []
+                   end)
+          | None => (TAny, [mkdiag pos (DPropUndef t)])
+          end
+      end
+  | TArr el d =>
+      if negb d then (TAny, [mkdiag pos (DDerefRecv t)])
+      else match el with
+           | TAny => (t, [])
+           | TObj ps m =>
+               match lookup prop ps with
+               | Some pt => (TArr pt true, [])
+               | None =>
+                   match m with
+                   | Some mt => (TArr mt true, [])
+                   | None => (TArr TAny true, [mkdiag pos (DPropUndefFiltered el)])
+                   end
+               end
+           | _ => (TAny, [mkdiag pos (DFilterElem el)])
+           end
+  | _ => (TAny, [mkdiag pos (DDerefRecv t)])
+  end.
+
+(* checkArrayDeref *)
 Definition has_obj_member (ps : list (string * ty)) : bool :=
   existsb (fun kv : string * ty => is_obj (snd kv) || (filter_any && is_any (snd kv))) ps.
+
+Definition arrderef_node (pos : tpos) (t : ty) : ty * list diag :=
+  match t with
+  | TAny => (TArr TAny true, [])
+  | TArr el _ => (TArr el true, [])
+  | TObj ps m =>
+      match m with
+      | Some TAny => (TArr TAny true, [])
+      | Some (TObj qs n) => (TArr (TObj qs n) true, [])
+      | Some mt => (TAny, [mkdiag pos (DFilterMapElem mt t)])
+      | None =>
+          if has_obj_member ps then (TArr TAny true, [])
+          else (TAny, [mkdiag pos (DFilterNoObj t)])
+      end
+  | _ => (TAny, [mkdiag pos (DFilterRecv t)])
+  end.
+
+(* checkIndexAccess; [ti] = type of the index, [t] = type of the operand *)
+Definition index_node (operand index : expr) (ti t : ty) : ty * list diag :=
+  match t with
+  | TAny => (TAny, [])
+  | TArr el _ =>
+      match ti with
+      | TAny | TNum => (el, [])
+      | _ => (TAny, [mkdiag (etok index) (DIndexArr ti)])
+      end
+  | TObj ps m =>
+      match ti with
+      | TAny => (TAny, [])
+      | TStr =>
+          match index with
+          | EStr _ s =>
+              match lookup s ps with
+              | Some pt => (pt, [])
+              | None =>
+                  match m with
+                  | Some mt => (mt, [])
+                  | None => (TAny, [mkdiag (etok operand) (DPropUndef t)])
+                  end
+              end
+          | _ => (match m with Some mt => mt | None => TAny end, [])
+          end
+      | _ => (TAny, [mkdiag (etok index) (DIndexObj ti)])
+      end
+  | _ => (TAny, [mkdiag (etok operand) (DIndexOperand t)])
+  end.
+
+(* checkNotOp *)
+Definition not_node (p : tpos) (t : ty) : ty * list diag :=
+  (TBool, if assignable TBool t then [] else [mkdiag p (DNotOp t)]).
+
+(* checkCompareOp *)
+Definition cmp_node (op : cmpop) (pos : tpos) (tl tr : ty) : ty * list diag :=
+  (TBool, if compare_ok op tl tr then [] else [mkdiag pos (DCompare tl tr)]).
+
+(* checkFuncCall after the arguments have been checked *)
+Definition call_node (p : tpos) (callee : string) (args : list expr) (sigs : list fsig)
+  (tys : list (ty * tpos)) : ty * list diag :=
+  match resolve p sigs tys with
+  | inl sig => builtin_call p callee args sig
+  | inr errs => (TAny, errs)
+  end.
 
 (* nw = None: sema.check;  nw = Some truthy: sema.checkWithNarrowing(_, truthy) *)
 Fixpoint chk (nw : option bool) (e : expr) {struct e} : ty * list diag :=
@@ -216,118 +328,35 @@ Fixpoint chk (nw : option bool) (e : expr) {struct e} : ty * list diag :=
     let '(tl, dl) := chk (Some (match op with LAnd => false | LOr => true end)) l in
     let '(tr, dr) := chk None r in
     (mg tl tr, dl ++ dr) in
+  let seq2 (l r : expr) : ty * list diag :=
+    let '(_, dl) := chk None l in let '(tr, dr) := chk None r in (tr, dl ++ dr) in
   match nw, e with
-  | Some truthy, ELog LAnd l r =>
-      if truthy then let '(_, dl) := chk None l in let '(tr, dr) := chk None r in (tr, dl ++ dr)
-      else logical LAnd l r
-  | Some truthy, ELog LOr l r =>
-      if negb truthy then let '(_, dl) := chk None l in let '(tr, dr) := chk None r in (tr, dl ++ dr)
-      else logical LOr l r
+  | Some truthy, ELog LAnd l r => if truthy then seq2 l r else logical LAnd l r
+  | Some truthy, ELog LOr l r => if negb truthy then seq2 l r else logical LOr l r
   | Some truthy, ENot _ x => chk (Some (negb truthy)) x
-  | _, EVar p name =>
-      match lookup name (e_vars E) with
-      | None => (TAny, [mkdiag p DUndefVar])
-      | Some t => (t, if mem (lower name) (e_avail E) then [] else [mkdiag p DCtxNotAllowed])
-      end
+  | _, EVar p name => var_node p name
   | _, ENull _ => (TNull, [])
   | _, EBool _ _ => (TBool, [])
   | _, EInt _ _ => (TNum, [])
   | _, EFloat _ _ => (TNum, [])
   | _, EStr _ _ => (TStr, [])
   | _, EDeref recv prop =>
-      let pos := etok recv in
       let '(t, ds) := chk None recv in
-      match t with
-      | TAny => (TAny, ds)
-      | TObj ps m =>
-          match lookup prop ps with
-          | Some pt => (pt, ds)
-          | None =>
-              match m with
-              | Some mt =>
-                  (mt, ds ++ match recv with
-                             | EVar _ "vars" =>
-                                 match check_config (e_config E) prop with
-                                 | Some k => [mkdiag pos k]
-                                 | None => []
-                                 end
-                             | _ => []
-                             end)
-              | None => (TAny, ds ++ [mkdiag pos (DPropUndef t)])
-              end
-          end
-      | TArr el d =>
-          if negb d then (TAny, ds ++ [mkdiag pos (DDerefRecv t)])
-          else match el with
-               | TAny => (t, ds)
-               | TObj ps m =>
-                   match lookup prop ps with
-                   | Some pt => (TArr pt true, ds)
-                   | None =>
-                       match m with
-                       | Some mt => (TArr mt true, ds)
-                       | None => (TArr TAny true, ds ++ [mkdiag pos (DPropUndefFiltered el)])
-                       end
-                   end
-               | _ => (TAny, ds ++ [mkdiag pos (DFilterElem el)])
-               end
-      | _ => (TAny, ds ++ [mkdiag pos (DDerefRecv t)])
-      end
+      let '(u, own) := deref_node recv prop t in (u, ds ++ own)
   | _, EArrDeref recv =>
-      let pos := etok recv in
       let '(t, ds) := chk None recv in
-      match t with
-      | TAny => (TArr TAny true, ds)
-      | TArr el _ => (TArr el true, ds)
-      | TObj ps m =>
-          match m with
-          | Some TAny => (TArr TAny true, ds)
-          | Some (TObj qs n) => (TArr (TObj qs n) true, ds)
-          | Some mt => (TAny, ds ++ [mkdiag pos (DFilterMapElem mt t)])
-          | None =>
-              if has_obj_member ps then (TArr TAny true, ds)
-              else (TAny, ds ++ [mkdiag pos (DFilterNoObj t)])
-          end
-      | _ => (TAny, ds ++ [mkdiag pos (DFilterRecv t)])
-      end
+      let '(u, own) := arrderef_node (etok recv) t in (u, ds ++ own)
   | _, EIndex operand index =>
       let '(ti, di) := chk None index in
       let '(t, dop) := chk None operand in
-      let ds := di ++ dop in
-      match t with
-      | TAny => (TAny, ds)
-      | TArr el _ =>
-          match ti with
-          | TAny | TNum => (el, ds)
-          | _ => (TAny, ds ++ [mkdiag (etok index) (DIndexArr ti)])
-          end
-      | TObj ps m =>
-          match ti with
-          | TAny => (TAny, ds)
-          | TStr =>
-              match index with
-              | EStr _ s =>
-                  match lookup s ps with
-                  | Some pt => (pt, ds)
-                  | None =>
-                      match m with
-                      | Some mt => (mt, ds)
-                      | None => (TAny, ds ++ [mkdiag (etok operand) (DPropUndef t)])
-                      end
-                  end
-              | _ => (match m with Some mt => mt | None => TAny end, ds)
-              end
-          | _ => (TAny, ds ++ [mkdiag (etok index) (DIndexObj ti)])
-          end
-      | _ => (TAny, ds ++ [mkdiag (etok operand) (DIndexOperand t)])
-      end
+      let '(u, own) := index_node operand index ti t in (u, (di ++ dop) ++ own)
   | _, ENot p x =>
       let '(t, ds) := chk None x in
-      (TBool, ds ++ if assignable TBool t then [] else [mkdiag p (DNotOp t)])
+      let '(u, own) := not_node p t in (u, ds ++ own)
   | _, ECmp op l r =>
       let '(tl, dl) := chk None l in
       let '(tr, dr) := chk None r in
-      (TBool, dl ++ dr ++ if compare_ok op tl tr then [] else [mkdiag (etok l) (DCompare tl tr)])
+      let '(u, own) := cmp_node op (etok l) tl tr in (u, (dl ++ dr) ++ own)
   | _, ELog op l r => logical op l r
   | _, ECall p callee args =>
       match lookup (lower callee) (e_funcs E) with
@@ -342,10 +371,7 @@ Fixpoint chk (nw : option bool) (e : expr) {struct e} : ty * list diag :=
                    let '(ts, ds) := go l' in
                    ((t, etok a) :: ts, d ++ ds)
                end) args in
-          match resolve p sigs tys with
-          | inl sig => let '(t, d2) := builtin_call p callee args sig in (t, ds ++ d2)
-          | inr errs => (TAny, ds ++ errs)
-          end
+          let '(u, own) := call_node p callee args sigs tys in (u, ds ++ own)
       end
   end.
 End Checker.
